@@ -65,6 +65,19 @@ func skAddMany(s int, v float64, n int) skOp {
 		mod: func(w *SketchWorld) { w.M[s].Add(v, float64(n)) }}
 }
 
+// skMergeRefused: a.MergeWith(non-empty sketch of another mapping kind). The
+// call is refused; the reference is left untouched whatever it returns.
+func skMergeRefused(s int) skOp {
+	return skOp{name: fmt.Sprintf("%s.MergeWith(a non-empty sketch of another mapping) [refused, no effect expected]", slotName(s)), tag: "refused",
+		real: func(w *SketchWorld, st []*SkSlot, _ bool) {
+			other := NewSkSlot(otherMapping(w.M[s].Spec), st[s].Store, st[s].Exact)
+			other.Q().AddWithCount(250, 4)
+			other.Q().Add(-0.01)
+			st[s].MergeWith(other)
+		},
+		mod: func(*SketchWorld) {}}
+}
+
 func bigSum(ent []Entry) (sum, abs float64) {
 	var s, a big.Float
 	s.SetPrec(2000)
